@@ -132,7 +132,7 @@ func scanErrClass(err error) string {
 	return "other:" + msg
 }
 
-var prefixes = []string{":", ":", ":", "v-", "@", "th:", "data-t-"}
+var prefixes = []string{":", ":", ":", "v-", "@", "th:", "data-t-", "ui:", "wire:", "attr-"} // some share letters with directive names (a cutset-style trim would eat them)
 var tagSets = [][]string{nil, nil, nil, {}, {"Script", "pre"}, {"p"}, {"title", "STYLE", "xmp"}}
 var voidSets = [][]string{nil, nil, nil, {}, {"BR", "p"}, {"!doctype", "img", "x-y"}}
 
